@@ -40,6 +40,10 @@ class Expect(Exception):
         self.types = types if isinstance(types, tuple) else (types,)
 
 
+class Undefined(Exception):
+    """The documentation does not define the result of this call on this state."""
+
+
 class Ref:
     def __init__(self, spec):
         self.id = spec.get("id", "m")
@@ -161,6 +165,8 @@ class Ref:
         backup = copy.deepcopy(self.__dict__)
         try:
             fn(op, o, sut_outcome)
+        except Undefined:
+            return "unmodelled"
         except Expect as e:
             self.__dict__ = backup
             return "raises:" + "|".join(t for t in e.types)
@@ -217,6 +223,12 @@ class Ref:
         mets = {}
         by_uid = {m["uid"]: mid for mid, m in self.mets.items()}
         for uid, c in g["mets"]:
+            now = by_uid[uid] if uid in by_uid else self.dead_mets[uid][0]
+            if now in mets:
+                # two metabolite objects of the detached reaction carry the same identifier by now (one was renamed to the
+                # identifier the other one had when it left the model): no documentation says which coefficient the
+                # model's metabolite of that name gets - the history ends here
+                raise Undefined()
             if uid in by_uid:
                 mets[by_uid[uid]] = c
             else:
